@@ -20,6 +20,8 @@ import (
 //                        and handleConnectRequest: how many statements in the branch leave it
 //                        (return, break, continue, goto, panic). The model's "Warning + continue".
 //   closeDecisionInputs  the disjuncts of the condition that guards `res.Close = true`.
+//   deadlineRearmedBeforeEveryHandle  handleLoop sets the connection deadline unconditionally on
+//                        every iteration before it calls handle (model: Wire.serveTimed).
 func init() { extractors = append(extractors, extractProxySem) }
 
 // defsIn collects `x := e` / `x, ok := e` definitions of a function body: name -> defining expression.
@@ -133,6 +135,32 @@ func extractProxySem() {
 	g.def("responseFieldsSet", "List String", leanList(resFields))
 	g.def("modifierErrorExits", "List (String × Nat)", "["+strings.Join(exits, ", ")+"]")
 	g.def("closeDecisionInputs", "List String", leanList(closeInputs))
+
+	// the serving loop: is the connection deadline set on every iteration, before handle - as a
+	// statement of the loop body itself, not under a condition?
+	rearm := "false"
+	if fd := funcDecl(f, "Proxy", "handleLoop"); fd != nil && fd.Body != nil {
+		for _, st := range fd.Body.List {
+			fs, ok := st.(*ast.ForStmt)
+			if !ok {
+				continue
+			}
+			seenDeadline := false
+			for _, b := range fs.Body.List {
+				txt := oneLine(src(b))
+				if es, ok := b.(*ast.ExprStmt); ok && strings.Contains(oneLine(src(es.X)), ".SetDeadline(") {
+					seenDeadline = true
+				}
+				if strings.Contains(txt, "p.handle(") {
+					if seenDeadline {
+						rearm = "true"
+					}
+					break
+				}
+			}
+		}
+	}
+	g.def("deadlineRearmedBeforeEveryHandle", "Bool", rearm)
 }
 
 func disjuncts(e ast.Expr) []string {
